@@ -218,6 +218,18 @@ func uploadBundle(ctx context.Context, bundle *Bundle, bundleEntriesPerFile uint
 		return err
 	}
 
+	// a key listed several times is one file: a bundle holds at most one entry per path
+	seen := make(map[string]struct{}, len(files))
+	unique := files[:0:0]
+	for _, file := range files {
+		if _, dup := seen[file]; dup {
+			continue
+		}
+		seen[file] = struct{}{}
+		unique = append(unique, file)
+	}
+	files = unique
+
 	if len(files) == 0 {
 		bundle.l.Warn("Uploading bundle with 0 files")
 	}
